@@ -208,3 +208,30 @@ Theorem refused_decides t m b : lookup t m = Some b -> (refused t m = true <-> r
 Proof.
   intros L. apply refused_iff_reaches; [exact L|]. apply fuel_enough. pose proof (unvisited_bound t). lia.
 Qed.
+
+(* ---------- the interpreter's side (model/Interp.v, stage B) ---------- *)
+From OP Require Import model.Interp.
+Section InterpMacros.
+  Variable p : program.
+  (* the registry keeps, per name, the Macro node registered last *)
+  Lemma latest_definition_wins l nm m : macro_lookup (macro_put l nm m) nm = Some m.
+  Proof.
+    induction l as [|[k m0] l IH]; cbn [macro_put macro_lookup]; [now rewrite Nat.eqb_refl|].
+    destruct (Nat.eqb k nm) eqn:E; cbn [macro_lookup]; rewrite E; [reflexivity|exact IH].
+  Qed.
+  Lemma other_names_untouched l nm m nm' : nm' <> nm -> macro_lookup (macro_put l nm m) nm' = macro_lookup l nm'.
+  Proof.
+    intros N. induction l as [|[k m0] l IH]; cbn [macro_put macro_lookup].
+    - destruct (Nat.eqb nm nm') eqn:E; [apply Nat.eqb_eq in E; congruence|reflexivity].
+    - destruct (Nat.eqb k nm) eqn:E; cbn [macro_lookup].
+      + apply Nat.eqb_eq in E. subst k. destruct (Nat.eqb nm nm') eqn:E2; [apply Nat.eqb_eq in E2; congruence|reflexivity].
+      + destruct (Nat.eqb k nm'); [reflexivity|exact IH].
+  Qed.
+  (* a call of an undefined macro, or one that would make the macro call itself, fails instead of running anything *)
+  Lemma undefined_call_fails e b n nm k s : n_kind (nd p n) = KCallMacro nm -> macro_lookup (macros s) nm = None ->
+    dispatch p e b n k s = Raise k s.
+  Proof. intros K L. unfold dispatch. now rewrite K, L. Qed.
+  Lemma recursive_call_fails e b n nm m k s : n_kind (nd p n) = KCallMacro nm -> macro_lookup (macros s) nm = Some m ->
+    would_recurse p s nm m = true -> dispatch p e b n k s = Raise k s.
+  Proof. intros K L W. unfold dispatch. now rewrite K, L, W. Qed.
+End InterpMacros.
